@@ -470,6 +470,7 @@ def setitem(eng, base, idx, val):
 
         return npmodels.setitem(eng, base, idx, val)
     if isinstance(base, PDict):
+        check_frame(eng, base)  # a dict that belongs to a frozen input (its column table, a cache the constructor made) may not be stored into
         if base.items is not None:
             if isinstance(idx, Sym):
                 raise Unsupported("symbolic key store into a concrete dict (add a `types` hint)")
@@ -653,6 +654,8 @@ def _m_clear(eng, recv, args, kwargs):
 
 
 def _m_copy(eng, recv, args, kwargs):
+    if hasattr(recv, "__pyvc_copy__"):  # extension containers (pyvc/ext_*.py) copy themselves
+        return recv.__pyvc_copy__(eng)
     if isinstance(recv, PList):
         c = PList()
         c.proto = recv.proto
@@ -1263,10 +1266,41 @@ def _b_deepcopy(eng, args, kwargs):
     return deepcopy_value(args[0])
 
 
+def _b_copy(eng, args, kwargs):
+    """copy.copy: ONE new object; an instance gets a new field table holding the very same field values (nothing below the first
+    level is duplicated), list / dict get a new container with the same elements, an ndarray a fresh copy of its data
+    (ndarray.__copy__)."""
+    (v,) = args
+    if hasattr(v, "__pyvc_copy__"):
+        return v.__pyvc_copy__(eng)
+    if isinstance(v, Obj):
+        custom = ("__copy__", "__reduce_ex__", "__reduce__", "__getstate__", "__setstate__")
+        if any((n in c.__dict__) or c.__dict__.get("__slots__") for c in getattr(v.cls, "__mro__", ()) for n in custom if c is not object):
+            raise Unsupported("copy.copy of an instance of a class that customises copying / pickling")
+        eng.assumptions.add("copy.copy of a plain instance: a new object of the same class whose attributes are the SAME values (shallow)")
+        return Obj(v.cls, dict(v.fields), name=v.name)
+    if isinstance(v, PList):
+        return _b_list(eng, [v], {})
+    if isinstance(v, PDict):
+        return _b_dict(eng, [v], {})
+    if isinstance(v, (SArr, NArr)):
+        return method_of(eng, v, "copy").model(eng, v, [], {})
+    if isinstance(v, (Sym, int, float, Fraction, str, bool, tuple, frozenset, type(None))):
+        return v  # immutable: copy.copy returns the object itself
+    raise Unsupported(f"copy.copy of {type(v).__name__}")
+
+
+def _b_slice(eng, args, kwargs):
+    """slice(stop) / slice(start, stop[, step]): the same object the subscript syntax a[start:stop:step] builds"""
+    if kwargs or not 1 <= len(args) <= 3:
+        raise ProgExc(TypeError, "slice expected 1 to 3 positional arguments")
+    return slice(*args)
+
+
 import copy as _copy  # noqa: E402
 
 BUILTIN_MODELS = {
-    _copy.deepcopy: _b_deepcopy,
+    _copy.deepcopy: _b_deepcopy, _copy.copy: _b_copy, slice: _b_slice,
     len: _b_len, range: _b_range, isinstance: _b_isinstance, bool: _b_bool, int: _b_int, float: _b_float,
     list: _b_list, tuple: _b_tuple, dict: _b_dict, collections.defaultdict: _b_defaultdict, zip: _b_zip,
     enumerate: _b_enumerate, map: _b_map, iter: _b_iter, next: _b_next, min: _b_min, max: _b_max,
